@@ -53,26 +53,26 @@ Qed.
 (** * C02 comparison with a reference unit *)
 Lemma ref_eq_same_unit x y : q_unit S x = q_unit S y ->
   HasRefUnit_eq S x y = Ok (a_eqb am (q_amount S x) (q_amount S y)).
-Proof.
-  intros E. unfold HasRefUnit_eq. rewrite E, equiv_amount_same. reflexivity.
-Qed.
+Proof. intros E. unfold HasRefUnit_eq. rewrite E, Nat_eqb_refl. reflexivity. Qed.
 
 Lemma ref_cmp_same_unit x y : q_unit S x = q_unit S y ->
   HasRefUnit_partial_cmp S x y = Ok (a_cmp am (q_amount S x) (q_amount S y)).
+Proof. intros E. unfold HasRefUnit_partial_cmp. rewrite E, Nat_eqb_refl. reflexivity. Qed.
+
+(** reference-unit magnitude in the amount type: amount * scale(unit) *)
+Definition ref_magnitude (q : Qt S) : res am := a_mul am (q_amount S q) (u_scale S (q_unit S q)).
+
+Lemma ref_eq_diff_unit x y : q_unit S x <> q_unit S y ->
+  HasRefUnit_eq S x y = bind (ref_magnitude x) (fun mx => bind (ref_magnitude y) (fun my => Ok (a_eqb am mx my))).
 Proof.
-  intros E. unfold HasRefUnit_partial_cmp. rewrite E, Nat_eqb_refl. reflexivity.
+  intros Hne. unfold HasRefUnit_eq, ref_magnitude.
+  destruct (PeanoNat.Nat.eqb_spec (q_unit S x) (q_unit S y)); [contradiction|reflexivity].
 Qed.
 
-Lemma ref_eq_kernel x y :
-  HasRefUnit_eq S x y =
-  bind (HasRefUnit_equiv_amount S y (q_unit S x)) (fun b => Ok (a_eqb am (q_amount S x) b)).
-Proof. reflexivity. Qed.
-
-Lemma ref_cmp_kernel x y : q_unit S x <> q_unit S y ->
-  HasRefUnit_partial_cmp S x y =
-  bind (HasRefUnit_equiv_amount S y (q_unit S x)) (fun b => Ok (a_cmp am (q_amount S x) b)).
+Lemma ref_cmp_diff_unit x y : q_unit S x <> q_unit S y ->
+  HasRefUnit_partial_cmp S x y = bind (ref_magnitude x) (fun mx => bind (ref_magnitude y) (fun my => Ok (a_cmp am mx my))).
 Proof.
-  intros Hne. unfold HasRefUnit_partial_cmp.
+  intros Hne. unfold HasRefUnit_partial_cmp, ref_magnitude.
   destruct (PeanoNat.Nat.eqb_spec (q_unit S x) (q_unit S y)); [contradiction|reflexivity].
 Qed.
 
